@@ -80,6 +80,7 @@ class Reader(Mutable):
         self.file = file
         self.pos = z3.IntVal(pos) if isinstance(pos, int) else pos
         self.reads = z3.IntVal(0)
+        self.nbytes = z3.IntVal(0)     # ghost: bytes handed out by the stream (construct parsing)
         self.limit = None         # substream end (Prefixed), else file.N
 
     def _loc_get(self, key):
